@@ -661,7 +661,7 @@ func (ex *Exec) cellIndex(a []Value, idx *T, ptrT types.Type) Value {
 	}
 	// scalar elements: keep the index symbolic
 	et := deref(ptrT)
-	if _, _, isInt := intInfo(et); isInt || isBool(et) || isFloat(et) {
+	if _, _, isInt := intInfo(et); isInt || isBool(et) || isFloat(et) || isString(et) {
 		return SymElemPtr{Elems: a, Idx: idx}
 	}
 	k := ex.concretize(idx, 0, n-1)
